@@ -482,7 +482,14 @@ func TestC12RingPool(t *testing.T) {
 	rapid.Check(t, func(t *rapid.T) {
 		runtime.GC()
 		runtime.GC()
-		pool := rbPool.Get // global pool, as the connections use it
+		// the global pool, as the connections use it, or a pool of its own (uncalibrated at first)
+		pool, putRing := rbPool.Get, rbPool.Put
+		fresh := rapid.Bool().Draw(t, "ownPool")
+		if fresh {
+			own := &rbPool.Pool{}
+			pool, putRing = own.Get, own.Put
+		}
+		calibrations := 0
 		type heldRing struct {
 			rb      *ring.Buffer
 			content []byte
@@ -532,11 +539,17 @@ func TestC12RingPool(t *testing.T) {
 				st.NonTrivial(vstat.Hash(strings.Join(hist, ";")))
 				st.Label("ring_reused")
 			}
+			if calibrations > 0 {
+				st.Label("pool_calibrated_during_the_case")
+			}
+			if fresh {
+				st.Label("own_pool")
+			}
 			if st.WantSample(recycled) {
 				st.Sample(recycled, strings.Join(hist, "; "))
 			}
 			for _, h := range rings {
-				rbPool.Put(h.rb)
+				putRing(h.rb)
 			}
 			for _, b := range slices {
 				bsPool.Put(b)
@@ -599,8 +612,29 @@ func TestC12RingPool(t *testing.T) {
 				}
 				i := rapid.IntRange(0, len(rings)-1).Draw(t, "which")
 				hist = append(hist, "ring.Put")
-				rbPool.Put(rings[i].rb)
+				putRing(rings[i].rb)
 				rings = append(rings[:i], rings[i+1:]...)
+			},
+			"Calibrate": func(t *rapid.T) {
+				// the pool re-calibrates itself after 42000 returns of one size step: a reachable state of
+				// any long-running process, with its own branch in Put
+				if calibrations >= 2 {
+					t.Skip("calibrated twice")
+				}
+				calibrations++
+				n := rapid.SampledFrom([]int{0, 1024, 4096}).Draw(t, "ringSize")
+				hist = append(hist, fmt.Sprintf("42001 x Put(ring of size %d)", n))
+				for i := 0; i < 42001; i++ {
+					rb := pool()
+					if n > 0 && rb.Cap() == 0 {
+						_, _ = rb.Write(make([]byte, n))
+						_, _ = rb.Discard(n)
+					}
+					if !rb.IsEmpty() {
+						fail("ringpool-notempty", "a ring buffer from the pool holds %d bytes", rb.Buffered())
+					}
+					putRing(rb)
+				}
 			},
 			"GetSlice": func(t *rapid.T) {
 				if len(slices) >= 8 {
